@@ -342,6 +342,18 @@ def one_case(sh, case_seed, tracer):
     for t in doc.tables:
         if t.alias == t.name:
             t.alias = None          # the staleness scan needs every name token to belong to one attribute only
+    for t in doc.tables:
+        names = {c.name for c in t.columns}
+        for ix in t.indexes:
+            ix.subjects = [(k_, 'id*2' if k_ == 'expr' and v_ in names else v_) for k_, v_ in ix.subjects]
+        for c in t.columns:
+            if c.default is not None and c.default.kind == 'str' and c.default.value in names:
+                c.default = None
+    seen_sn = set()
+    for st in doc.stickies:
+        if st.name in seen_sn:
+            st.name = st.name + 'dupq'      # same reason: one owner per name token
+        seen_sn.add(st.name)
     if rng.random() < 0.25:
         # equal texts in several slots (the same expression as default of several columns and as an index subject,
         # the same note text on several elements): an in-place edit of one of them is an edit of that one only
